@@ -357,9 +357,10 @@ func (srv *server) registerClient(connect *packets.Connect, client *client) (ses
 			var willDelayInterval, expiryInterval uint32
 			if connect.WillFlag {
 				willMsg = &gmqtt.Message{
-					QoS:     connect.WillQos,
-					Topic:   string(connect.WillTopic),
-					Payload: connect.WillMsg,
+					QoS:      connect.WillQos,
+					Retained: connect.WillRetain,
+					Topic:    string(connect.WillTopic),
+					Payload:  connect.WillMsg,
 				}
 				setWillProperties(connect.WillProperties, willMsg)
 			}
@@ -525,6 +526,13 @@ func (srv *server) sendWillLocked(msg *gmqtt.Message, clientID string) {
 	// the will message is dropped
 	if req.Message == nil {
 		return
+	}
+	if req.Message.Retained {
+		if len(req.Message.Payload) == 0 {
+			srv.retainedDB.Remove(req.Message.Topic)
+		} else {
+			srv.retainedDB.AddOrReplace(req.Message.Copy())
+		}
 	}
 	srv.deliverMessage(clientID, req.Message, defaultIterateOptions(req.Message.Topic))
 	if srv.hooks.OnWillPublished != nil {
